@@ -122,6 +122,7 @@ void pmc_run(const char* config) {
     mv_init();
     mvp::use_fast_stacks(true);     // released stacks (they hold the thread struct) are poisoned until reused
     mv_time_deviations(strstr(extra, "tdev") != nullptr);
+    if (strstr(extra, "plain")) { if (st.recursive) mv_plain_region(st.rm, sizeof *st.rm); else mv_plain_region(st.m, sizeof *st.m); }    // plain accesses to the mutex object are scheduling points too
     mv_tso(strstr(extra, "tso") != nullptr); mv_switch_points(0);     // built with -DPHOTON_VERIF for the TSC hook only
     std::vector<pthread_t> vt;
     for (int cpu = 0; cpu < st.nvcpu; cpu++) {
@@ -185,6 +186,8 @@ static const PmcConfig CFG[] = {
     {"m0n:gen2x3+:tdev",         2, {0,0}, {1,1}, {0,0}, {0,0}, ""},
     {"m0n:L|L:tso",              3, {1,2}, {0,0}, {1,1}, {2,3}, "x86-TSO: one store per thread may linger in the store buffer"},
     {"m0c:L|L:tso",              3, {1,2}, {0,0}, {1,1}, {2,3}, ""},
+    {"m0n:L|L:plain",            3, {1,2}, {0,0}, {0,0}, {0,0}, "plain accesses to the mutex object (wait queue links) are scheduling points too"},
+    {"m0n:H|T:tdev,plain",       2, {1,1}, {1,1}, {0,0}, {2,2}, ""},
     {"m0n:L|L,i0:tso",           2, {1,1}, {0,0}, {1,1}, {2,2}, ""}, 
 };
 const PmcConfig* pmc_configs(int* n) { *n = sizeof CFG / sizeof CFG[0]; return CFG; }
